@@ -1,7 +1,7 @@
 /-
   Single-byte alterations of an encoded image: wherever the altered byte is covered by a
   zero-sum checksum whose extent it does not itself define, the format's acceptance condition
-  `checksumsOk` fails.  Core only.
+  `checksumsClamped` fails.  Core only.
 -/
 import PyIpmi.Lemmas.FruSums
 namespace PyIpmi.Fru
@@ -66,28 +66,28 @@ theorem encodeRecord_bytes (r : Record) (last : Bool) (h : r.wf = true) : Bytes 
   exact Bytes.cons ht (Bytes.cons (by cases last <;> simp) (Bytes.cons (by omega)
     (Bytes.cons (zeroSum_lt _) Bytes.nil)))
 
-/-! ### the conjuncts of `checksumsOk` -/
+/-! ### the conjuncts of `checksumsClamped` -/
 
-theorem checksumsOk_false_hdr (bs : List Nat) (h : (bs.take 8).sum % 256 ≠ 0) : checksumsOk bs = false := by
+theorem checksumsClamped_false_hdr (bs : List Nat) (h : (bs.take 8).sum % 256 ≠ 0) : checksumsClamped bs = false := by
   have : (sum8 (bs.take 8) == 0) = false := by simp [sum8, h]
-  simp [checksumsOk, this]
+  simp [checksumsClamped, this]
 
-theorem checksumsOk_false2 (bs : List Nat) (h : (bs.getD 2 0 == 0 || areaSumOk (areaAt bs 2)) = false) :
-    checksumsOk bs = false := by unfold checksumsOk; rw [h]; simp
+theorem checksumsClamped_false2 (bs : List Nat) (h : (bs.getD 2 0 == 0 || areaSumClamped (areaAt bs 2)) = false) :
+    checksumsClamped bs = false := by unfold checksumsClamped; rw [h]; simp
 
-theorem checksumsOk_false3 (bs : List Nat) (h : (bs.getD 3 0 == 0 || areaSumOk (areaAt bs 3)) = false) :
-    checksumsOk bs = false := by unfold checksumsOk; rw [h]; simp
+theorem checksumsClamped_false3 (bs : List Nat) (h : (bs.getD 3 0 == 0 || areaSumClamped (areaAt bs 3)) = false) :
+    checksumsClamped bs = false := by unfold checksumsClamped; rw [h]; simp
 
-theorem checksumsOk_false4 (bs : List Nat) (h : (bs.getD 4 0 == 0 || areaSumOk (areaAt bs 4)) = false) :
-    checksumsOk bs = false := by unfold checksumsOk; rw [h]; simp
+theorem checksumsClamped_false4 (bs : List Nat) (h : (bs.getD 4 0 == 0 || areaSumClamped (areaAt bs 4)) = false) :
+    checksumsClamped bs = false := by unfold checksumsClamped; rw [h]; simp
 
-theorem checksumsOk_false5 (bs : List Nat) (h : (bs.getD 5 0 == 0 || multiSumOk (areaAt bs 5)) = false) :
-    checksumsOk bs = false := by unfold checksumsOk; rw [h]; simp
+theorem checksumsClamped_false5 (bs : List Nat) (h : (bs.getD 5 0 == 0 || multiSumOk (areaAt bs 5)) = false) :
+    checksumsClamped bs = false := by unfold checksumsClamped; rw [h]; simp
 
 /-! ### an altered info-area byte -/
 
-theorem areaSumOk_ne_nil (d : List Nat) (h : d ≠ []) :
-    areaSumOk d = (sum8 (d.take (8 * d.getD 1 0)) == 0) := by
+theorem areaSumClamped_ne_nil (d : List Nat) (h : d ≠ []) :
+    areaSumClamped d = (sum8 (d.take (8 * d.getD 1 0)) == 0) := by
   cases d with
   | nil => exact absurd rfl h
   | cons _ _ => rfl
@@ -109,7 +109,7 @@ theorem alter_area (a : InfoArea) (hwf : a.wf = true) (P Q : List Nat) (k : Nat)
     (j : Nat) (hj1 : j ≠ 1) (b' old : Nat) (hold : (encodeArea a)[j]? = some old) (hb' : b' < 256)
     (hne : b' ≠ old) :
     (((P ++ (encodeArea a ++ Q)).set (P.length + j) b').getD k 0 == 0 ||
-      areaSumOk (areaAt ((P ++ (encodeArea a ++ Q)).set (P.length + j) b') k)) = false := by
+      areaSumClamped (areaAt ((P ++ (encodeArea a ++ Q)).set (P.length + j) b') k)) = false := by
   obtain ⟨hj, _⟩ := List.getElem?_eq_some_iff.mp hold
   rw [set_middle _ _ _ _ _ hj]
   have hg : (P ++ ((encodeArea a).set j b' ++ Q)).getD k 0 = P.getD k 0 := getD_append_left _ _ _ hk
@@ -128,7 +128,7 @@ theorem alter_area (a : InfoArea) (hwf : a.wf = true) (P Q : List Nat) (k : Nat)
     have := a.total_pos
     rw [getD_append_left _ _ _ (by omega), List.getD_eq_getElem?_getD, List.getElem?_set]
     simp [hj1, encodeArea_getElem1]
-  rw [hg, hdrop, areaSumOk_ne_nil _ hnn, h1]
+  rw [hg, hdrop, areaSumClamped_ne_nil _ hnn, h1]
   have ht : 8 * (a.total / 8) = a.total := by have := a.total_div; omega
   rw [ht, ← hlen, List.take_left' rfl]
   have hs := sum_set_ne' (encodeArea a) j b' old hold (encodeArea_sum a)
